@@ -98,6 +98,38 @@ class Discharger:
                 lo = max(lo, 1)
         return lo
 
+    def _bool_attr(self, name, depth=0):
+        """every class of the repository that defines `name` defines it as a property all of whose returns are truth values (True / False)"""
+        if depth > 3:
+            return False
+        defs = [c.methods[name] for c in self.M.classes.values() if name in c.methods]
+        if not defs or any(name in c.field_inits for c in self.M.classes.values()):
+            return False
+        for f in defs:
+            if f.kind != "property":
+                return False
+            rets = [n for n in ast.walk(f.node) if isinstance(n, ast.Return)]
+            if not rets or not all(r.value is not None and self._bool_expr(r.value, depth) for r in rets):
+                return False
+        return True
+
+    def _bool_expr(self, e, depth):
+        if isinstance(e, ast.Compare):
+            return all(not isinstance(o, (ast.In, ast.NotIn)) or True for o in e.ops)
+        if isinstance(e, ast.UnaryOp) and isinstance(e.op, ast.Not):
+            return True
+        if isinstance(e, ast.Constant):
+            return isinstance(e.value, bool)
+        if isinstance(e, ast.Call) and isinstance(e.func, ast.Name) and e.func.id in ("bool", "isinstance", "hasattr", "any", "all", "callable", "issubclass"):
+            return True
+        if isinstance(e, ast.BoolOp):
+            return all(self._bool_expr(v, depth) for v in e.values)
+        if isinstance(e, ast.IfExp):
+            return self._bool_expr(e.body, depth) and self._bool_expr(e.orelse, depth)
+        if isinstance(e, ast.Attribute):
+            return self._bool_attr(e.attr, depth + 1)
+        return False
+
     def index_ok(self, site, guards):
         sub = site[3]
         base, idx = sub[1], sub[2]
@@ -141,6 +173,9 @@ class Discharger:
             # bool(..) / a comparison is 0 or 1
             if n_ >= 2 and ((i0[0] == "call" and i0[1] == "bool") or i0[0] in ("cmp", "not")):
                 return "constant sequence indexed by a truth value (0 or 1)"
+            # a property whose every definition in the repository returns a truth value
+            if n_ >= 2 and i0[0] in ("f0", "prop") and isinstance(i0[2], str) and self._bool_attr(i0[2]):
+                return f"constant sequence indexed by the truth-valued property {i0[2]}"
             # an octet taken from a bytes-like value / a popped octet indexes a 256-entry table
             if n_ >= 256 and (i0[0] in ("iter",) or (i0[0] == "call" and isinstance(i0[1], str) and i0[1].endswith(".pop")) or (i0[0] == "sub" and strip_epoch(i0[1])[0] in ("f0", "p", "slice"))):
                 return "256-entry constant table indexed by an octet"
